@@ -79,6 +79,25 @@ let handle toks = match toks with
                 show_res_str (description_k (kind_of kind) vs cs (if mode = "D" then Some ks else None))
             | _ -> failwith "DESC C")
        | _ -> failwith "DESC K")
+  (* HIST kind mode VARS [ vs ] K [ ks ] P  (L [ exprs ] | O expr)*  E : one backend object, the posts in order *)
+  | "HIST" :: kind :: mode :: "VARS" :: r ->
+      let (vs, r) = take_list r in
+      (match r with
+       | "K" :: r ->
+           let (ks, r) = take_list r in
+           (match r with
+            | "P" :: r ->
+                let rec posts acc r = match r with
+                  | "L" :: r -> let (cs, r) = Exprio.parse_expr_list r in posts (PList cs :: acc) r
+                  | "O" :: r -> let (c, r) = Exprio.parse_expr r in posts (POne c :: acc) r
+                  | "E" :: _ | [] -> List.rev acc
+                  | _ -> failwith "HIST post" in
+                let ps = posts [] r in
+                let vs = List.map bvar_of_tok vs in
+                let ks = List.map (fun k -> k = "1") ks in
+                show_res_str (history_description (kind_of kind) vs ps (if mode = "D" then Some ks else None))
+            | _ -> failwith "HIST P")
+       | _ -> failwith "HIST K")
   | "PE" :: r -> let (e, _) = Exprio.parse_expr r in show_res_str (print_expr e)
   | "PA" :: r -> let (vs, r) = take_list r in
       show_parse (parse_answer (List.map bvar_of_tok vs) (cs_of_string (unhex (List.hd r))))
